@@ -105,6 +105,10 @@ pub fn run(cases_path: &str, out_path: &str) {
 }
 
 fn run_case(out: &mut Out, case: &Value) {
+    if case.get("stress").is_some() {
+        out.emit(crate::stress::run_stress(case));
+        return;
+    }
     let cap = case["cap"].as_u64().unwrap_or(4) as usize;
     let level = case["level"].as_u64().unwrap_or(6) as u32;
     let method = case["method"].as_str().unwrap_or("GET");
